@@ -139,7 +139,7 @@ def mutate(rng, s):
 class C14(G.C13):
     pid = "C14"
     driver = "Verif/C13/Driver.lean"
-    quick_cases = 1500
+    quick_cases = 1100
     thorough_cases = 16000
     KEYS = ("string", "startmap", "endmap", "tokens", "yy", "reparsed")
     modes = ["inorder", "inorder", "inorder", "any", "escapes", "empty"]
@@ -188,6 +188,16 @@ class C14(G.C13):
                 if not t["paths"]:
                     t["paths"] = [1]
             s = str(YYTokenLattice([mk_token(t) for t in c["tokens"]]))
+            r = rng.random()
+            if r < 0.3:
+                # pos tags (and near misses of them) after the lrules: outside the modelled shapes only when the
+                # optional part really matches
+                s = s.replace('"null")', '"null"' + rng.choice([', "NN" 0.5000)', ', "NN" 1.0e-3 "VB" 0.5)', ',', ', "NN")',
+                                                              ', "NN" 1.)', ', "NN" .5)', ',"N" 1e5 )', ', "NN" 01.5)',
+                                                              ', "NN" -0.25  "X" 2E+3)', ' "x")']), 1)
+                if rng.random() < 0.5:
+                    yield {"kind": "yyparse", "s": cps(s if s else "()")}
+                    continue
             yield {"kind": "yyparse", "s": cps(mutate(rng, s) if s else "()")}
 
     def search_cases(self, rng, tier, n, seeds):
@@ -245,10 +255,14 @@ class C14(G.C13):
 
     def model_compare(self, case, expected, answer):
         if case["kind"] in ("yy", "yyparse"):
-            if isinstance(answer, dict) and isinstance(answer.get("reparsed"), dict):
-                return None          # unmodelled token shape
-            if isinstance(expected.get("reparsed"), dict):
+            m_un = isinstance(answer, dict) and isinstance(answer.get("reparsed"), dict)
+            i_un = isinstance(expected.get("reparsed"), dict)
+            if case["kind"] == "yyparse" and m_un and i_un:
+                self.note_skip("yyparse: token with lrules != ['null'] or pos tags (outside the YY parser model), both sides")
                 return None
+            if m_un or i_un:
+                # one-sided: the model must say exactly when the real parser meets a token outside its shapes
+                return {"expected_from_impl": expected.get("reparsed"), "model": answer.get("reparsed") if isinstance(answer, dict) else answer}
             e = {k: expected[k] for k in ("yy", "reparsed") if k in expected}
             a = {k: answer.get(k) for k in e} if isinstance(answer, dict) else answer
             return None if e == a else {"expected_from_impl": e, "model": a}
